@@ -206,6 +206,15 @@ fn creation_order_is_valid(order: &[Ev]) -> bool {
   }
 }
 
+thread_local! {
+  /// multiplier of the three wall-clock bounds of a scenario (1 normally; 4 when a scenario that ran into one of the
+  /// bounds is run a second time: a slow, loaded machine must not be reported as "never")
+  static PATIENCE: std::cell::Cell<u64> = std::cell::Cell::new(1);
+}
+fn patience() -> u64 {
+  PATIENCE.with(|p| p.get())
+}
+
 fn run_scenario(sc: &Scenario, domain: u16, uniq: &str) -> Obs {
   let mut obs = Obs::default();
   capture::set_loss(domain, sc.loss);
@@ -291,7 +300,7 @@ fn run_scenario(sc: &Scenario, domain: u16, uniq: &str) -> Obs {
     return obs;
   }
   // phase 1: wait for the match (or for the incompatibility verdict) on both sides
-  let deadline = Instant::now() + StdDuration::from_secs(if sc.loss > 0 { 40 } else { 25 });
+  let deadline = Instant::now() + StdDuration::from_secs(patience() * if sc.loss > 0 { 40 } else { 25 });
   loop {
     pump(w.as_ref(), r.as_ref(), &mut st);
     let done = if expected_compat {
@@ -299,7 +308,11 @@ fn run_scenario(sc: &Scenario, domain: u16, uniq: &str) -> Obs {
     } else {
       st.w_incompat && st.r_incompat
     };
-    if done || Instant::now() > deadline {
+    if done {
+      break;
+    }
+    if Instant::now() > deadline {
+      obs.note = "deadline".into();
       break;
     }
     thread::sleep(StdDuration::from_millis(20));
@@ -327,7 +340,7 @@ fn run_scenario(sc: &Scenario, domain: u16, uniq: &str) -> Obs {
       Some(Durability::TransientLocal) | Some(Durability::Transient) | Some(Durability::Persistent)
     );
     let want = sc.after.len() + if transient { sc.before.len() } else { 0 };
-    let deadline = Instant::now() + StdDuration::from_secs(if sc.loss > 0 { 40 } else { 20 });
+    let deadline = Instant::now() + StdDuration::from_secs(patience() * if sc.loss > 0 { 40 } else { 20 });
     let mut got = Vec::new();
     while Instant::now() < deadline {
       r.as_mut().unwrap().take_all(&mut got);
@@ -335,6 +348,9 @@ fn run_scenario(sc: &Scenario, domain: u16, uniq: &str) -> Obs {
         break;
       }
       thread::sleep(StdDuration::from_millis(20));
+    }
+    if got.len() < want && both_reliable {
+      obs.note = "deadline".into();
     }
     // anything extra (duplicates, samples a volatile reader must not see) shows up here
     thread::sleep(StdDuration::from_millis(700));
@@ -371,7 +387,7 @@ fn run_scenario(sc: &Scenario, domain: u16, uniq: &str) -> Obs {
     }
   }
   if sc.del != Del::None && matched {
-    let deadline = Instant::now() + StdDuration::from_secs(15);
+    let deadline = Instant::now() + StdDuration::from_secs(patience() * 15);
     while Instant::now() < deadline {
       pump(w.as_ref(), r.as_ref(), &mut st);
       let seen = match sc.del {
@@ -383,6 +399,9 @@ fn run_scenario(sc: &Scenario, domain: u16, uniq: &str) -> Obs {
         break;
       }
       thread::sleep(StdDuration::from_millis(20));
+    }
+    if !obs.unmatch_seen {
+      obs.note = "deadline".into();
     }
   }
   drop(w);
@@ -717,7 +736,19 @@ pub fn run(args: &Args) -> i32 {
             thread::sleep(StdDuration::from_millis(1500 * attempt as u64));
             continue;
           }
-          if attempt > 0 && obs.note.is_empty() {
+          // One of the wall-clock bounds (match 25/40 s, delivery 20/40 s, unmatch 15 s) expired.  "Within bounded
+          // time" has no number in the property; before the expiry counts, the scenario is run once more with four
+          // times the bounds.  A creation order or configuration that never works fails again (after minutes);
+          // a machine that was merely slow does not raise an alarm.  Counted in the evidence as note:rerun-patient.
+          if obs.note == "deadline" && PATIENCE.with(|p| p.get()) == 1 {
+            PATIENCE.with(|p| p.set(4));
+            attempt += 10;
+            continue;
+          }
+          if PATIENCE.with(|p| p.get()) != 1 {
+            PATIENCE.with(|p| p.set(1));
+            obs.note = format!("rerun-patient{}", if obs.note == "deadline" { "-deadline-again" } else { "" });
+          } else if attempt > 0 && obs.note.is_empty() {
             obs.note = format!("setup-retried-{}", attempt);
           }
           break obs;
